@@ -2,11 +2,14 @@
 package c10
 
 import (
+	"bytes"
 	"fmt"
+	"github.com/mycoria/mycoria/config"
 	"math/rand/v2"
 	"net/netip"
 	"sync"
 	"time"
+	"verifharness/wire"
 
 	"github.com/fxamacker/cbor/v2"
 
@@ -558,6 +561,60 @@ func partC(res *core.Result, pool *idPool, r *rand.Rand, sizes []int) {
 	}
 }
 
+// partD: the last hop of every delivery is a real link: frames handed to a real link (real writer, real reader,
+// link-layer sealing) reach the peer's frame handler byte-identical and in order, also when the byte stream
+// arrives in small pieces (TCP segment boundaries).
+func partD(res *core.Result, r *rand.Rand, chunk int) {
+	idA, idB := env.NewIdentity(r, nil), env.NewIdentity(r, nil)
+	a, b := wire.NewRouter(idA, config.Router{}), wire.NewRouter(idB, config.Router{})
+	w := wire.New()
+	ra, rb, ok := wire.Handshake(w, a, b, 10*time.Second)
+	if !ok || ra.Err != nil || rb.Err != nil || ra.Link == nil {
+		res.Inconcl("real link did not come up: %v %v", ra.Err, rb.Err)
+		return
+	}
+	defer func() {
+		ra.Link.Close(nil)
+		if rb.Link != nil {
+			rb.Link.Close(nil)
+		}
+		w.A.Close()
+		w.B.Close()
+	}()
+	w.SetReadChunk(wire.AtoB, chunk)
+	var want [][]byte
+	for i, n := range []int{40, 70, 500, 530, 580, 1500, 1590, 4000, 5050, 9000, 61, 62, 63, 64, 65} {
+		f, err := a.Inst.BuilderV.NewFrameV1(idA.IP, idB.IP, frame.SessionData, nil, append([]byte(fmt.Sprintf("c10-real-link-%03d-", i)), core.RandBytes(r, n)...), nil)
+		if err != nil {
+			continue
+		}
+		d, _ := f.FrameDataWithMargins(0, 0)
+		want = append(want, append([]byte(nil), d...))
+		if err := ra.Link.Send(f); err != nil {
+			res.Violate("real-link-send-failed", fmt.Sprintf("handing a %d-byte frame to an established link failed: %v", len(d), err), nil)
+			return
+		}
+	}
+	for i, wd := range want {
+		select {
+		case f := <-b.Upstream:
+			d, _ := f.FrameDataWithMargins(0, 0)
+			same := bytes.Equal(d, wd)
+			f.ReturnToPool()
+			if !same {
+				res.Violate("real-link-frame-differs", fmt.Sprintf("stream delivered in pieces of %d bytes: frame %d arrived changed or out of order", chunk, i), map[string]any{"chunk": chunk, "case_id": fmt.Sprintf("real-link|%d", chunk)})
+				return
+			}
+		case <-time.After(10 * time.Second):
+			res.Violate("real-link-frame-lost", fmt.Sprintf("stream delivered in pieces of %d bytes: frame %d of %d (%d bytes) never reached the peer's frame handler although no byte was altered (link closing: %v)", chunk, i, len(want), len(wd), ra.Link.IsClosing()),
+				map[string]any{"chunk": chunk, "case_id": fmt.Sprintf("real-link|%d", chunk)})
+			return
+		}
+	}
+	res.Count("real_link_frames_delivered", int64(len(want)))
+	res.Case(fmt.Sprintf("real-link|chunk%d", chunk), true)
+}
+
 func appendUvarint(b []byte, v uint64) []byte {
 	for v >= 0x80 {
 		b = append(b, byte(v)|0x80)
@@ -616,6 +673,9 @@ func run(c *core.Ctx) {
 		}
 		partC(res, &idPool{r: core.RNG(fmt.Sprintf("c10/idsc/%d", w))}, core.RNG(fmt.Sprintf("c10/c/%d", w)), part)
 	})
+	for _, chunk := range []int{0, 1, 2, 3, 5, 1400} {
+		partD(res, core.RNG(fmt.Sprintf("c10/d/%d", chunk)), chunk)
+	}
 	res.Sample(map[string]any{"part": "a", "mesh": "grid4x4", "pair": "0->15", "probes": []string{"custom ping via RouteFrame", "real pong request/reply", "label-switched frame over the table's forward block"}})
 	res.Sample(map[string]any{"part": "b", "mesh": "ring of 7 with every route to a phantom destination pointing clockwise", "frame": "type 17, TTL 200, no switch block"})
 	res.Assume("meshes are converged by the real announcement code first (C09); links are lossless")
